@@ -1,2 +1,29 @@
-From ZC Require Import Model.Base Model.WireEnc Model.WireDec.
-Example C01_placeholder : True. Proof. exact I. Qed.
+(* C01 - wire codec round trip: what is encoded is exactly what any decoder recovers. Statements only.
+From Coq Require Import Lia ZifyBool.
+   packets_info : Model/WireEnc.v mirrors DNSOutgoing (compression dictionary, rollback, multi-packet loop; the label
+   limit test is regenerated from the source), byte-exact against the code on every run.
+   strict_parse : Spec/Rfc1035.v, an independent strict RFC 1035 parser. parse : Model/WireDec.v mirrors DNSIncoming. *)
+From ZC Require Import Model.Base Model.PyRec Model.Dict Model.Utf8 Model.Names Model.WireEnc Model.WireDec Spec.Rfc1035
+  Gen.Const Gen.Shapes Proofs.C01_utf8 Proofs.C01_defs Proofs.C01_record Proofs.C01_packets.
+
+(* Every datagram the builder emits for a well-formed message is accepted by the strict RFC 1035 parser, uses only
+   supported types, has header counts equal to the entries it carries, and yields exactly the expected images of
+   consecutive slices of the four sections: names spelled as given, type, class, the cache-flush / QU bit iff the
+   message is multicast, TTL (or remaining TTL), rdata - in order, none lost, duplicated or invented within what
+   was written, however name compression and rollback at the size limits fall. *)
+Theorem C01_roundtrip_strict : forall m ps now', wf_msg m -> packets_info m = Ok ps ->
+  Forall2 (packet_ok now') ps
+    (expected_stream (o_multicast m) now' (o_questions m) (o_answers m) (o_authorities m) (o_additionals m) (map snd ps)).
+Proof. exact packets_roundtrip. Qed.
+Print Assumptions C01_roundtrip_strict.
+
+(* UTF-8: every Unicode text comes back from its encoding *)
+Theorem C01_utf8 : forall s b, scalar_text s = true -> utf8_encode s = Ok b ->
+  utf8_decode_replace b = s /\ Forall (fun x => 0 <= x < 256) b.
+Proof. intros s b H E. split; [exact (utf8_roundtrip s b H E) | exact (utf8_bytes_range s b H E)]. Qed.
+Print Assumptions C01_utf8.
+
+(* The only way a label is refused is the limit test read from the source: with the repaired code, more than 63 bytes *)
+Theorem C01_label_limit : forall n, write_utf_rejects n = (63 <? n).
+Proof. intro n. unfold write_utf_rejects, cmp_apply, write_utf_reject_op, write_utf_reject_bound. lia. Qed.
+Print Assumptions C01_label_limit.
